@@ -53,6 +53,20 @@ def clause_source(spec, fs, ob):
     return None
 
 
+def _hypotheses(spec, fs, case):
+    '''Pre-state assumptions of the unit (requires, case requires, class invariants for handlers): a
+    solver model that violates one of them concretely is spurious and is not replayed as a finding.'''
+    out = [['requires:' + c.label, c.expr] for c in fs.requires]
+    if case:
+        for c in (case.get('requires') or []):
+            out.append(['case-requires:' + str(c[0]), c[1]])
+    if fs.handler or fs.d.get('inv_use'):
+        for lst in spec.invariants.values():
+            for c in lst:
+                out.append(['invariant:' + c.label, c.expr])
+    return out
+
+
 def make_and_run(prop, unit, ob, src=None):
     from pyvc import driver
     from pyvc import sym
@@ -71,9 +85,11 @@ def make_and_run(prop, unit, ob, src=None):
         'source_file': unit['file'], 'source_lines': unit['lines'], 'source_hash': unit['src_hash'],
         'case': {'name': case.get('name'), 'params': case.get('params', {})} if case else None,
         'clause': clause_source(spec, fs, ob),
+        'hypotheses': _hypotheses(spec, fs, case),
         'raises_declared': sorted(fs.raises.keys()),
         'solver': {'verdict': 'sat' if ob['status'] == 'failed' else 'candidate (model of the quantifier-free hypotheses)',
-                   'backends': ob['backends'], 'model': {k: v for k, v in model.items() if k != '__state__'}},
+                   'backends': ob['backends'], 'model': {k: v for k, v in model.items() if k not in ('__state__', '__probes__')}},
+        'probes': model.get('__probes__'),
         'state': model.get('__state__'),
         'str_lits': {str(v): k for k, v in sym._STR_LITS.items()},
         'func_tags': {str(v): k for k, v in sym._FUNC_TAGS.items()},
